@@ -278,7 +278,8 @@ def write_replay(pid, oid, diags, cfg, runs):
 
 def write_evidence(pid, tier, seed, cfg, runs, obligations, failed, assumptions, wall, undecided=None, twins=None,
                    known_hit=None, violations=None, n_obl=None):
-    os.makedirs(os.path.join(VERIF, "evidence"), exist_ok=True)
+    evdir = os.environ.get("VERIF_EVIDENCE_DIR") or os.path.join(VERIF, "evidence")  # (scratch dir when trying seeded changes)
+    os.makedirs(evdir, exist_ok=True)
     fns, under_contract, norms, outlined, attrs = [], [], {}, [], []
     cmds = []
     smt_ms = 0.0
@@ -337,7 +338,7 @@ def write_evidence(pid, tier, seed, cfg, runs, obligations, failed, assumptions,
         "wall_s": round(wall, 2),
         "violations": len(violations or []),
     }
-    with open(os.path.join(VERIF, "evidence", pid + ".json"), "w") as f:
+    with open(os.path.join(evdir, pid + ".json"), "w") as f:
         json.dump(ev, f, indent=1)
 
 
